@@ -90,8 +90,7 @@ def judge(case):
             if not all(core.close(F, 1.0, 1e-11) for F in Fs):
                 v.append(core.viol("C05/facilitation_factor/" + kind, "no initial permeances supplied but the run uses factors %r on its fits" % (Fs,)))
         else:
-            sup = (float(setup.init_perm[0].convert(U.Units.kg_m2_h_kPa, mix.first_component).value),
-                   float(setup.init_perm[1].convert(U.Units.kg_m2_h_kPa, mix.second_component).value))
+            sup = tuple(float(z) for z in setup.case["init_perm"]["values"])  # stated in kg/(m2 h kPa); the harness converted them exactly to the case's units
             if not all(core.close(tr["P"][0][i], sup[i], 1e-11) for i in (0, 1)):
                 v.append(core.viol("C05/initial_permeance/" + kind, "step 0 uses permeances %r, supplied %r" % (tr["P"][0], sup)))
     # (c) the fits themselves
@@ -106,6 +105,11 @@ def judge(case):
                 v.append(core.viol("C05/depends_on_earlier_run/" + kind, "run %d of the same model on the same objects differs from run 1 (%s)" % (
                     rep_i, "raises %r" % (pm2,) if st2 != "ok" else "permeances %r vs %r" % ([p_[0].value for p_ in pm2.permeances][:3], [p_[0] for p_ in tr["P"]][:3]))))
                 break
+    # recycled caller objects: a decoy run first (another membrane state, other conditions), then every caller-owned object is set in
+    # place to this case - the membrane's experiments included, so a remembered activation energy or factor shows
+    if not v and case["mode"] == "vac":
+        v5, _n5 = traces.check_recycled(case, tr, "C05/depends_on_earlier_run/" + kind)
+        v.extend(v5)
     return core.result("judged", digest=traces.trace_digest(tr), viol=v, states=n, transitions=max(n - 1, 0), traces=1, lag=ok_lag or 0,
                        sample={"P": tr["P"][:3], "F": Fs})
 
@@ -262,6 +266,22 @@ def process_space(tier, seed):
     return core.Space("nonideal_processes", alph, ok)
 
 
+def unit_space(tier, seed):
+    """initial permeances stated in every unit and in a different unit per component, on a membrane so small (1e-7 m2) that not even
+    a permeance wrong by a unit-conversion constant exhausts the feed: the run returns and is judged."""
+    q = tier == "quick"
+    KG = U.Units.kg_m2_h_kPa
+    alph = {
+        "kind": ["nonideal_iso", "nonideal_noniso"], "mixture": ["H2O_EtOH"] if q else ["H2O_EtOH", "S2"], "model": ["NRTL"],
+        "mode": ["vac", ("T", -20.0)], "prog": ["none", "poly"],
+        "curves": [spaces.CURVE_CONFIGS["one"], spaces.CURVE_CONFIGS["two"]],
+        "init_perm": [{"values": (2.5e-2, 3.0e-5), "units": [a_, b_]} for a_ in (KG, "SI", "GPU") for b_ in (KG, "SI", "GPU")],
+        "fit_kwargs": [{}], "area": [1e-7], "amount": [50.0], "dt": core.lat([0.5], seed), "ea": [(25000.0, 60000.0)], "steps": [4],
+        "x0": core.lat([0.1], seed), "basis": ["weight", "molar"], "T": [333.15, 338.15],
+    }
+    return core.Space("nonideal_processes_initial_permeance_units", alph, lambda c: not (c["kind"] == "nonideal_iso" and c["prog"] != "none"))
+
+
 def curve_space(tier, seed):
     q = tier == "quick"
     alph = {
@@ -309,9 +329,9 @@ def main(tier, seed):
                      "(the models differ and the statement does not choose)", "isothermal model: lag 0 or 1, one per run"],
         technique="explicit-state trace conformance of the permeance series against the returned fits, and differential comparison of the fits with the public search")
     U.install_fit_memo()
-    for sp in (process_space(tier, seed), curve_space(tier, seed)):
+    for sp in (process_space(tier, seed), unit_space(tier, seed), curve_space(tier, seed)):
         prewarm_public(sp)
-        if sp.name == "nonideal_processes":
+        if sp.name.startswith("nonideal_processes"):
             spaces.prewarm(sp)
         core.run_space(rep, sp, judge)
     return rep.finish()
